@@ -208,7 +208,7 @@ Definition read_one_data (o : ropts) (ls : list (list N)) (ps : pstate) (d : dlm
   let wrapped := hval_is_str (p_wrapped ps) (s2l "YES") in
   let use_numpy := o_engine_numpy o && negb wrapped && o_null_strict o in
   let subs0 := match d with DComma => comma_delim_subs | _ => default_subs end in
-  let (sniffed, subs) := inspect_twice body subs0 in
+  let (sniffed, subs) := inspect_twice d body subs0 in
   let ncurves := List.length (s_items (l_curves l)) in
   let wrap_declared :=
     match sect_find (s_transforms (l_version l)) (s2l "WRAP") (s_items (l_version l)) with
